@@ -472,10 +472,12 @@ int64_t cmi_pool_acquire_inner(struct cmb_resourcepool *rpp,
                  * Take it out of whatever it is waiting for right away, so that
                  * no other wakeup call (e.g., a grant from this very pool that
                  * is already on its way) reaches it before the bad news. Then
-                 * schedule a wakeup for it, but do not switch context yet.
+                 * schedule a wakeup for it, but do not switch context yet. The
+                 * notice goes first in this instant, whatever the priority of
+                 * the victim, or a later interrupt or timer could sweep it away.
                  */
                 cmi_process_cancel_awaiteds(victim);
-                cmb_process_interrupt(victim, CMB_PROCESS_PREEMPTED, victim->priority);
+                cmb_process_interrupt(victim, CMB_PROCESS_PREEMPTED, INT64_MAX);
 
                  /* Split the loot */
                 if (loot < rem_claim) {
